@@ -109,6 +109,22 @@ func (q mQuote) lib() *bt.FeeQuote {
 	if pv != nil || fq == nil {
 		return plain()
 	}
+	if (q.StdSat+q.StdBytes+q.DataSat+q.DataBytes)%3 == 1 {
+		// a refresh that is refused (the document names a fee type that does not
+		// exist) leaves the quote as configured
+		mk := func(t bt.FeeType, s, b int) *bt.Fee {
+			return &bt.Fee{FeeType: t, MiningFee: bt.FeeUnit{Satoshis: s, Bytes: b}, RelayFee: bt.FeeUnit{Satoshis: s, Bytes: b}}
+		}
+		doc, err := json.Marshal(map[bt.FeeType]*bt.Fee{
+			bt.FeeTypeStandard: mk(bt.FeeTypeStandard, q.StdSat*5+11, q.StdBytes),
+			bt.FeeTypeData:     mk(bt.FeeTypeData, q.DataSat/3, q.DataBytes+2),
+			"bogus":            mk("bogus", 1, 1),
+		})
+		var uerr error
+		if pv, _ := mon.TryQuiet(func() { uerr = json.Unmarshal(doc, fq) }); err != nil || pv != nil || uerr == nil {
+			return plain() // accepted after all: not the situation meant here
+		}
+	}
 	return fq
 }
 
